@@ -98,3 +98,29 @@ Proof.
   - destruct (run_loc2 _ h sF H (netlist_clone_orig_region_closed ops n Hk Hc Hok) R2) as [[O _] [D _]].
     split; [exact O|]. intros x Hx1 Hx2. apply D. unfold orig_region. lia.
 Qed.
+
+(* CLOSURE, both regions: after a completed Netlist.clone the copy and the original are separated *)
+Theorem netlist_clone_separated ops n :
+  let s := run ops init in
+  let sF := fst (fst (clone_netlist s n)) in
+  kind_of s n = Some KNetlist -> Closed s n -> snd (fst (clone_netlist s n)) = None ->
+  Separated (copy_region (next s)) (orig_region (next s) (next sF)) sF.
+Proof.
+  intros s sF Hk Hc Hok. split; [apply (netlist_clone_copy_region_closed ops n Hk Hc Hok)|].
+  split; [apply (netlist_clone_orig_region_closed ops n Hk Hc Hok)|].
+  intros x Hx H1 [H2|H2]; unfold copy_region in H1; lia.
+Qed.
+
+(* in particular nothing reachable from the copy of the netlist is an object of the original *)
+Theorem netlist_clone_footprint_disjoint ops n y :
+  let s := run ops init in
+  let sF := fst (fst (clone_netlist s n)) in
+  kind_of s n = Some KNetlist -> Closed s n -> snd (fst (clone_netlist s n)) = None ->
+  footprint sF (snd (clone_netlist s n)) y -> next s <= y.
+Proof.
+  intros s sF Hk Hc Hok H.
+  assert (Hr : next s <= snd (clone_netlist s n)).
+  { destruct (clone_netlist_reachable_struct ops n Hk Hc Hok) as [M NS].
+    destruct (ns_rng _ _ _ _ _ NS _ _ (ns_root _ _ _ _ _ NS)) as [_ [B _]]. exact B. }
+  apply (rclosed_footprint (copy_region (next s)) sF _ y (netlist_clone_copy_region_closed ops n Hk Hc Hok) Hr H).
+Qed.
